@@ -163,5 +163,11 @@ var edgeCorpus = func() []string {
 		sb.WriteString("\treturn x\n}\nreturn f({v: {v: 1}})\n")
 		out = append(out, sb.String())
 	}
+	// the small end: sources of size zero (file set entries without a single byte)
+	out = append(out,
+		"",
+		"// nothing but a comment",
+		pre+"e := import(\"modEmpty\")\nb := import(\"modBlank\")\nlog(e, b)\nreturn [e, b, import(\"modEmpty\")]\n",
+		pre+"try { import(\"modEmpty\").x() } catch err { log(err.Message, trace(err)) }\nreturn 1\n")
 	return out
 }()
